@@ -11,14 +11,18 @@ def mpoly_unit(prop):
                       R('v1.resize(vars_.size(), 0);', 'v1.resize(vars_.size(), 0u);', n=1, why="literal typed for the stub overload"), R('v2.resize(o_.vars_.size(), 0);', 'v2.resize(o_.vars_.size(), 0u);', n=1)],
                name='MSymEnginePoly<Container, Poly>::__eq__ [in-class, instantiated for MIntPoly]')
     cn = Piece(MH, r'^    bool is_constant\(\) const', rules=[
-        R(r'for \(auto &p : poly_\.dict_\)\s*for \(auto e : p\.first\)\s*if \(([^\n]*)\)\s*return false;',
-          r'for (unsigned p__k = 0; p__k < poly_.dict_.size(); p__k++) { term p = poly_.dict_.at(p__k); for (unsigned e__k = 0; e__k < p.first.size(); e__k++) { unsigned e = p.first.d[e__k]; if (\1) return false; } }', n=1, regex=True,
-          why="nested range-for over the term dictionary and the exponent vector -> index loops (the tested condition is kept verbatim)")], name='MSymEnginePoly<Container, Poly>::is_constant [in-class]')
+        R(r'for \(auto e : ([^\n]+?)\)\s*\n\s*if \(([^\n]*)\)\s*\n\s*return false;',
+          r'{ evec e__v = \1; for (unsigned e__k = 0; e__k < e__v.size(); e__k++) { unsigned e = e__v.d[e__k]; if (\2) return false; } }', n=1, regex=True,
+          why="range-for over an exponent vector -> index loop (container expression and tested condition kept verbatim)"),
+        R(r'for \(auto &p : poly_\.dict_\)\s*(\{ evec e__v[^\n]*\})', r'for (unsigned p__k = 0; p__k < poly_.dict_.size(); p__k++) { term p = poly_.dict_.at(p__k); \1 }', n='*', regex=True,
+          why="range-for over the term dictionary around it -> index loop")], name='MSymEnginePoly<Container, Poly>::is_constant [in-class]')
     hs = Piece(MC, r'hash_t MIntPoly::__hash__\(\) const', rules=[
         R(r'for \(auto &p : get_poly\(\)\.dict_\)\s*\n\s*([^;{}]*;)', r'{ mdict c__d = get_poly().dict_; for (unsigned c__k = 0; c__k < c__d.size(); c__k++) { term p = c__d.at(c__k); \1 } }', n='*', regex=True,
           why="brace-less range-for over the term dictionary (the constant branch) -> index loop; absent in older text"),
-        R('for (auto var : get_vars())\n        hash_combine<std::string>(seed, var->__str__());', 'vset v__s = get_vars(); for (unsigned v__k = 0; v__k < v__s.size(); v__k++)\n        hash_combine_name(seed, v__s.at(v__k));', n=1,
-          why="range-for over the variable set; hashing the variable's printed name -> opaque per-variable word"),
+        R(r'for \(auto var : get_vars\(\)\)\s*\n\s*([^;{}]*;)', r'{ vset v__s = get_vars(); for (unsigned v__k = 0; v__k < v__s.size(); v__k++) { varobj v__o = v__s.obj(v__k); varobj *var = &v__o; \1 } }', n=1, regex=True,
+          why="range-for over the generator set -> index loop over the stub, body verbatim"),
+        R('hash_combine<std::string>(', 'hash_combine_str(', n='*', why="hashing a printed name -> opaque word per printed object"),
+        R('hash_combine<Basic>(', 'hash_combine<varobj>(', n='*', why="hashing a generator through Basic::hash -> the children's contract (one word per eq-class)"),
         R('for (auto &p : get_poly().dict_) {', 'mdict d__p = get_poly().dict_; for (unsigned p__k = 0; p__k < d__p.size(); p__k++) { term p = d__p.at(p__k);', n=1, why="range-for over the unordered term dictionary -> index loop in an arbitrary order"),
         R('vec_hash<vec_uint>()(p.first)', 'vec_hash_evec(p.first)', n=1, why="function object of a class template -> the instantiated function")])
     vh = Piece('symengine/basic-inl.h', r'template <typename T>\s*hash_t vec_hash<T>::operator\(\)\(const T &v\) const', rules=[
@@ -35,12 +39,12 @@ def mpoly_unit(prop):
     pieces = {'hc.inc': hcp, 'vechash.inc': [vh], 'mpoly_const.inc': [cn], 'mpoly_eq.inc': [eq], 'mpoly_hash.inc': [hs]}
     trusted = ["variable set / term dictionary / exponent vector stubs; hashing a variable name mixes an opaque word; unified_eq on sets and unordered maps is equality as sets (std)"]
     if prop == 'C01':
-        ents = [Entry('h_mpoly', route='B', timeout=900, unwind=6, mem_gb=6, bounds="polynomials with at most 2 terms in at most 2 of 4 variables, exponents <= 3, any non-zero one-word coefficients")]
+        ents = [Entry('h_mpoly', route='B', timeout=900, unwind=9, mem_gb=6, bounds="polynomials with at most 2 terms in at most 2 of 4 variables, exponents <= 3, any non-zero one-word coefficients")]
     else:
         pieces['mpoly_cmp.inc'] = [cm]
         trusted.append("unified_compare on the variable set (ordered_compare with the symbols' __cmp__, an assumed total order) and on the term dictionary "
                        "(unordered_compare: keys sorted lexicographically, then key/value comparison) are stubs written from dict.h, not extracted")
-        ents = [Entry('h_mpoly_cmp', route='B', timeout=900, unwind=6, mem_gb=6, defines={'MPOLY_CMP': 1},
+        ents = [Entry('h_mpoly_cmp', route='B', timeout=900, unwind=9, mem_gb=6, defines={'MPOLY_CMP': 1},
                       bounds="three polynomials with at most 2 terms in at most 2 of 4 variables, exponents <= 3, any non-zero one-word coefficients")]
     return Unit('mpoly', prop, 'contracts/C01/mpoly.cpp', pieces, ents, route='B', trusted=trusted,
                 assumptions=["MExprPoly (Expression coefficients) and polynomials with more terms or variables are not covered"])
